@@ -9,6 +9,26 @@ def _hex(rng, n):
     return bytes(rng.getrandbits(8) for _ in range(n)).hex()
 
 
+class Sweep:
+    """Stands in for the random source while one abstract request is concretised again and again: the j-th
+    concretisation takes the j-th member (mod length) of every list a choice is made from, so that after
+    `longest` rounds every member of every class the request touches has been used in this request's context.
+    Everything else is delegated to the real source."""
+
+    def __init__(self, rng):
+        self.rng = rng
+        self.j = 0
+        self.longest = 1
+
+    def choice(self, seq):
+        seq = list(seq)
+        self.longest = max(self.longest, len(seq))
+        return seq[self.j % len(seq)]
+
+    def __getattr__(self, name):
+        return getattr(self.rng, name)
+
+
 def key_id(cls, rng):
     return {
         "auth": lambda: PATHS[rng.choice(["btc", "tbtc"])],
@@ -19,7 +39,10 @@ def key_id(cls, rng):
         "four": lambda: "m/44'/0'/0'/0",
         "six": lambda: "m/44'/0'/0'/0/0/0",
         "nondec": lambda: rng.choice(["m/44'/0'/x/0/0", "m/44'/0'/0''/0/0", "m/44'/-1/0'/0/0", "m/44'/0x1/0'/0/0",
-                                      "m/44'/ 1/0'/0/0", "m/44'/1.0/0'/0/0"]),
+                                      "m/44'/ 1/0'/0/0", "m/44'/1.0/0'/0/0", "m/44\'\'/0'/0'/0/0", "m/44'/0'/0'/0/0\'\'",
+                                      "m/44'/0'/0'/0/0\'\'\'", "m/'44/0'/0'/0/0", "m/4'4/0'/0'/0/0", "m/44'/0'/0'/0/0 ",
+                                      "m/44'/0'/0'/0/+0", "m/44'/0'/0'/0/0\n",
+                                      "m/44'/0'/0'/0/1_0", "m/44'//0'/0/0", "m/44'/0'/0'/0/0'/"]),
         "big": lambda: rng.choice(["m/44'/0'/0'/0/2147483648", "m/44'/0'/0'/0/4294967296", "m/44'/0'/0'/0/2147483648'",
                                    "m/44'/0'/0'/0/" + "9" * 30]),
         "empty": lambda: "",
